@@ -112,6 +112,7 @@ func (p *Prog) callerIndex() map[*ssa.Function]map[*ssa.Function]bool {
 			}
 		}
 	}
+	fns = p.withInstances(fns)
 	for _, f := range fns {
 		for _, b := range f.Blocks {
 			for _, in := range b.Instrs {
@@ -500,7 +501,10 @@ func readOnlyUse(v ssa.Value, r ssa.Instruction) (bool, string) {
 		if b, isB := c.Value.(*ssa.Builtin); isB && (b.Name() == "len" || b.Name() == "cap") {
 			return true, ""
 		}
-		name, _ := calleeName(c)
+		name, sc := calleeName(c)
+		if sc != nil && stdInlined(sc) {
+			return true, "" // read-only search helpers of package slices
+		}
 		ct := lookupContract(name)
 		if ct != nil && ct.ConcSafeRecv && len(c.Args) > 0 && c.Args[0] == v && !c.IsInvoke() {
 			for _, a := range c.Args[1:] {
